@@ -98,7 +98,7 @@ CLAIMS = {
         technique="MIR edge-dominance (validate-first), call-graph reachability of rule functions, code/docs table cross-check, dropped-Result def-use scan",
         text="Structural clauses: validate()? dominates every reader call in map_to_problem; every validation rule function (by return type) is reachable "
              "from ValidationContext::validate and module validators aggregate with combine_error_results; the code literal of each check_eNNNN equals its "
-             "name and the set of codes in the code equals the documented headings; no Result in validation is dropped. Two confirmed guard rows keep input-derived panics outside validation's reach away (approximation only without index locations; windows only for two dates). Not decided: that each predicate "
+             "name and the set of codes in the code equals the documented headings; no Result in validation is dropped. Two confirmed guard rows keep input-derived panics outside validation's reach away (approximation only without index locations; windows only for two dates). The error aggregator keeps every error of a rule group (no short-circuit). Not decided: that each predicate "
              "matches its documentation, exactness of codes == violated rules, input-derived panics in readers for fields no rule covers.",
         note="Docs headings are taken as the rule table; reader panics on unvalidated fields are listed in DESIGN.md as observations, not decided.",
         ref="DESIGN.md §5 C10"),
@@ -107,7 +107,7 @@ CLAIMS = {
         text="Narrow clauses: every type reachable from the Problem/Matrix/Solution documents derives both Serialize and Deserialize, carries no one-sided "
              "attribute, renames agree on both sides, skip_serializing_if is only Option::is_none on Option fields; for every untagged enum no later "
              "variant serialises to JSON an earlier variant accepts; tagged enums have unique tags; every CSV import column is consumed and CSV rows are grouped "
-             "by id (never by adjacency); the initial-solution reader walks every tour, stop and activity of the document (no dropping adapter). Optional-break job ids are consecutive (numbered after the required breaks are filtered out); the activity matcher tests place windows inclusively. Not decided: float "
+             "by id (never by adjacency); the initial-solution reader walks every tour, stop and activity of the document (no dropping adapter). Optional-break job ids are consecutive (numbered after the required breaks are filtered out); the activity matcher tests place windows inclusively. A job place is selected by location and time in one predicate. Not decided: float "
              "text round trip, activity matching when a solution is re-read, faithfulness of CSV values.",
         note="serde derive semantics for the listed attributes are trusted.",
         ref="DESIGN.md §5 C11"),
